@@ -42,6 +42,7 @@ import (
 	"mellium.im/xmpp"
 	"mellium.im/xmpp/jid"
 	"mellium.im/xmpp/stream"
+	xmppws "mellium.im/xmpp/websocket"
 
 	"verifharness/common"
 )
@@ -141,6 +142,8 @@ func leanUnit(u unit) string {
 		return ".failure"
 	case 'E':
 		return ".streamErr"
+	case 'D':
+		return ".streamErrD"
 	case 'G':
 		return ".tlsOther"
 	case 'O':
@@ -166,7 +169,7 @@ func table(sb *strings.Builder, doc, name, typ string, rows []string, err error)
 func (c *ctx) probeStartState(sb *strings.Builder) {
 	var rows []string
 	var perr error
-	for kind := 0; kind < len(connKinds); kind++ {
+	for kind := 0; kind < 4; kind++ { // (the entry point of the websocket package: probeWSStart)
 		for _, st0 := range []uint8{0, uint8(xmpp.Secure), uint8(xmpp.Authn), uint8(xmpp.S2S)} {
 			sc := scenario{ck: kind, state0: st0}
 			w := newWire(nil)
@@ -192,7 +195,59 @@ func (c *ctx) probeStartState(sb *strings.Builder) {
 		"startStateProbe", "List ((Nat × Nat) × Option Nat)", rows, perr)
 }
 
+// ---- websocket/ws.go: the state a session created by websocket.NewSession starts with ----------
+
+var wsSchemes = []string{"http", "https", "ws", "wss"}
+
+func (c *ctx) probeWSStart(sb *strings.Builder) {
+	var rows []string
+	var perr error
+	type pt struct{ carrier, origin, location int }
+	pts := []pt{{0, 0, 0}, {1, 0, 0}}
+	for o := range wsSchemes {
+		for _, l := range []int{2, 3} {
+			pts = append(pts, pt{2, o, l})
+		}
+	}
+	for _, p := range pts {
+		w := newWire(nil)
+		var rw io.ReadWriter = clientConn{w}
+		switch p.carrier {
+		case 1:
+			rw = plainRW{clientConn{w}}
+		case 2:
+			w = newWSWire(nil)
+			wc, err := dialWS(w, wsSchemes[p.origin]+"://a.example", wsSchemes[p.location]+"://a.example/xmpp-websocket")
+			if err != nil {
+				perr = err
+				continue
+			}
+			rw = wc
+		}
+		seen := -1
+		ok := common.WithTimeout(10*time.Second, func() {
+			// the peer says nothing: the call fails after the header was written; the session value
+			// that is returned with the error has the state the session started with
+			s, _ := xmppws.NewSession(context.Background(), jid.MustParse("user@a.example"), rw, xmpp.StartTLS(nil))
+			if s != nil {
+				seen = int(s.State())
+			}
+		})
+		w.close()
+		if !ok || seen < 0 {
+			perr = fmt.Errorf("websocket.NewSession on carrier %v: stalled=%v", p, !ok)
+		}
+		rows = append(rows, fmt.Sprintf("((%d, %d, %d), some %d)", p.carrier, p.origin, p.location, seen))
+	}
+	table(sb, "websocket/ws.go: the `SessionState` of a session created by `websocket.NewSession`, for (carrier: 0 net.Conn / 1 plain io.ReadWriter / 2 client `*websocket.Conn`, scheme of its origin URL, scheme of its location URL; schemes: 0 http 1 https 2 ws 3 wss)",
+		"wsStartProbe", "List ((Nat × Nat × Nat) × Option Nat)", rows, perr)
+}
+
 // ---- negotiator.go / features.go: the first features list, with and without the tee ------------
+
+// clearKinds: the kinds of connection that are clear text (every kind but the *tls.Conn), TCP and
+// WebSocket framing
+var clearKinds = []int{0, 1, 2, 4, 5, 6, 7, 8}
 
 var firstListShapes = [][]item{
 	{},
@@ -205,7 +260,7 @@ func (c *ctx) probeFirstList(sb *strings.Builder) {
 	var rows []string
 	var perr error
 	for tee := 0; tee < 4; tee++ {
-		for kind := 0; kind < 3; kind++ {
+		for _, kind := range clearKinds {
 			for _, items := range firstListShapes {
 				for _, proceed := range []bool{false, true} {
 					sc := scenario{tee: tee, ck: kind, clear: [][]unit{{hdr(true), list(items...)}}}
@@ -365,6 +420,11 @@ func (c *ctx) probeServerName(sb *strings.Builder) {
 			hist(explicit, []sess{a})
 			for _, b := range sniUniverse {
 				hist(explicit, []sess{a, b})
+				// (three sessions: in particular the patterns A,B,A and A,A,B — a value that is
+				// restored, cached per domain or changed by every second call shows here)
+				for _, c3 := range sniUniverse {
+					hist(explicit, []sess{a, b, c3})
+				}
 			}
 		}
 	}
@@ -501,6 +561,7 @@ func probes() (string, error) {
 	fmt.Fprintf(&sb, "/-- three behaviours of features.go that C02 does not constrain, measured on the code: (rr, rt, sk) -/\n")
 	fmt.Fprintf(&sb, "def featuresFlags : Option (Bool × Bool × Bool) := some (%s, %s, %s)\n\n", leanBool(c.rr), leanBool(c.rt), leanBool(c.sk))
 	c.probeStartState(&sb)
+	c.probeWSStart(&sb)
 	c.probeFirstList(&sb)
 	c.probeNegotiate(&sb)
 	c.probeServerName(&sb)
